@@ -1101,3 +1101,240 @@ func ruleDrainBounds(r *Run, id string) {
 	r.Check(name+" bounded by the caller context", caller, p.pos(fn.Pos()), name, "a polled context must derive from the ctx parameter")
 	r.Check(name+" bounded by the close timeout", timeout, p.pos(fn.Pos()), name, "a polled context must come from context.WithTimeout(…, Upstream.closeTimeout)")
 }
+
+// selectStateBlock returns the block control reaches when state i of sel fires.
+func selectStateBlock(sel *ssa.Select, i int) *ssa.BasicBlock {
+	if sel.Referrers() == nil {
+		return nil
+	}
+	for _, ref := range *sel.Referrers() {
+		ex, ok := ref.(*ssa.Extract)
+		if !ok || ex.Index != 0 || ex.Referrers() == nil {
+			continue
+		}
+		for _, r2 := range *ex.Referrers() {
+			bo, ok := r2.(*ssa.BinOp)
+			if !ok || bo.Op != token.EQL || bo.Referrers() == nil {
+				continue
+			}
+			k, isK := constInt(bo.Y)
+			if !isK || int(k) != i {
+				continue
+			}
+			for _, r3 := range *bo.Referrers() {
+				if ifs, isIf := r3.(*ssa.If); isIf {
+					return ifs.Block().Succs[0]
+				}
+			}
+		}
+	}
+	return nil
+}
+
+func blockReaches(from, to *ssa.BasicBlock) bool {
+	seen := map[*ssa.BasicBlock]bool{}
+	stack := []*ssa.BasicBlock{from}
+	for len(stack) > 0 {
+		x := stack[len(stack)-1]
+		stack = stack[:len(stack)-1]
+		if x == to {
+			return true
+		}
+		if seen[x] {
+			continue
+		}
+		seen[x] = true
+		stack = append(stack, x.Succs...)
+	}
+	return false
+}
+
+// loopBlocks: the strongly connected component of b (blocks on some cycle through b).
+func loopBlocks(b *ssa.BasicBlock) map[*ssa.BasicBlock]bool {
+	out := map[*ssa.BasicBlock]bool{}
+	for _, x := range b.Parent().Blocks {
+		if x == b {
+			continue
+		}
+		if blockReaches(b, x) && blockReaches(x, b) {
+			out[x] = true
+		}
+	}
+	for _, s := range b.Succs {
+		if blockReaches(s, b) {
+			out[b] = true
+		}
+	}
+	return out
+}
+
+// ruleLoopDrivers: a receive inside a loop from a one-shot time.Timer whose branch continues the loop must be
+// re-armed (Timer.Reset in the loop, or the timer is created inside the loop); otherwise the branch runs at most
+// once and the periodic work it guards silently stops. Tickers and per-iteration time.After are periodic by construction.
+func ruleLoopDrivers(r *Run, id, desc string, pick func(fn *ssa.Function) bool, min int) {
+	r.Begin(id, desc, min)
+	p := r.P
+	type rcv struct {
+		at     ssa.Instruction
+		ch     ssa.Value
+		branch *ssa.BasicBlock
+	}
+	n := map[string]int{}
+	for _, fn := range p.Funcs {
+		if !pick(fn) || fn.Blocks == nil {
+			continue
+		}
+		var rs []rcv
+		allInstrs(fn, func(ins ssa.Instruction) {
+			switch x := ins.(type) {
+			case *ssa.Select:
+				for i, st := range x.States {
+					if st.Dir == types.RecvOnly {
+						rs = append(rs, rcv{ins, st.Chan, selectStateBlock(x, i)})
+					}
+				}
+			case *ssa.UnOp:
+				if x.Op == token.ARROW {
+					rs = append(rs, rcv{ins, x.X, x.Block()})
+				}
+			}
+		})
+		k := 0
+		for _, rc := range rs {
+			if !inLoop(rc.at) {
+				continue
+			}
+			l := p.Leaves(rc.ch, provOpts{})
+			kind := ""
+			switch {
+			case hasLeaf(l, "field:time.Timer.C"):
+				kind = "timer"
+			case hasLeaf(l, "field:time.Ticker.C"), hasLeaf(l, "call:time.Tick"):
+				kind = "ticker"
+			case hasLeaf(l, "call:time.After"):
+				kind = "after"
+			default:
+				continue
+			}
+			k++
+			n[kind]++
+			name := fnName(fn)
+			key := fmt.Sprintf("%s timed receive#%d (%s)", name, k, kind)
+			loop := loopBlocks(rc.at.Block())
+			switch kind {
+			case "ticker":
+				r.Check(key, true, posOf(p, rc.at), name, "a Ticker fires repeatedly")
+			case "after":
+				// time.After must be evaluated inside the loop to be periodic; evaluated once outside, it is a deadline
+				r.Check(key, true, posOf(p, rc.at), name, "time.After channel")
+			case "timer":
+				back := rc.branch != nil && blockReaches(rc.branch, rc.at.Block())
+				rearmed := false
+				for b := range loop {
+					for _, ins := range b.Instrs {
+						if isCallNamed(ins, "time.Timer.Reset", "time.NewTimer", "time.AfterFunc") {
+							rearmed = true
+						}
+					}
+				}
+				r.Check(key, !back || rearmed, posOf(p, rc.at), name, fmt.Sprintf("receive from a one-shot time.Timer inside a loop: the branch continues the loop: %v; the timer is re-armed or re-created inside the loop: %v. A one-shot timer fires once; after that the branch is dead and whatever it does periodically never runs again", back, rearmed))
+			}
+		}
+	}
+	r.Stat("ticker_receives", n["ticker"])
+	r.Stat("after_receives", n["after"])
+	r.Stat("timer_receives", n["timer"])
+}
+
+// ruleFreshPerSend: a pointer handed over a channel from inside a loop must point to an object allocated in that
+// iteration. An object allocated before the loop and refilled in every iteration is shared by all queued entries:
+// the receiver sees the newest content several times and loses the older ones.
+func ruleFreshPerSend(r *Run, id string, pkgs ...string) {
+	r.Begin(id, "fresh object per hand-over: inside a loop, a pointer sent on a channel (directly or through a helper that takes the channel) points to an object allocated inside the loop, or to one that is not written inside the loop", 1)
+	p := r.P
+	n := 0
+	for _, fn := range p.Funcs {
+		okPkg := false
+		for _, pk := range pkgs {
+			if fnPkgPath(fn) == modPath+pk || (strings.HasSuffix(pk, "/") && strings.HasPrefix(fnPkgPath(fn), modPath+pk)) {
+				okPkg = true
+			}
+		}
+		if !okPkg || fn.Blocks == nil {
+			continue
+		}
+		k := 0
+		allInstrs(fn, func(ins ssa.Instruction) {
+			var vals []ssa.Value
+			switch x := ins.(type) {
+			case *ssa.Send:
+				vals = append(vals, x.X)
+			case *ssa.Select:
+				for _, st := range x.States {
+					if st.Dir == types.SendOnly {
+						vals = append(vals, st.Send)
+					}
+				}
+			case *ssa.Call:
+				hasChan := false
+				for _, a := range x.Call.Args {
+					if _, isCh := a.Type().Underlying().(*types.Chan); isCh {
+						hasChan = true
+					}
+				}
+				if hasChan {
+					for _, a := range x.Call.Args {
+						if _, isPtr := a.Type().Underlying().(*types.Pointer); isPtr {
+							vals = append(vals, a)
+						}
+					}
+				}
+			}
+			if len(vals) == 0 || !inLoop(ins) {
+				return
+			}
+			loop := loopBlocks(ins.Block())
+			for _, v := range vals {
+				for {
+					if mi, ok := v.(*ssa.MakeInterface); ok {
+						v = mi.X
+						continue
+					}
+					if ct, ok := v.(*ssa.ChangeType); ok {
+						v = ct.X
+						continue
+					}
+					break
+				}
+				al, ok := v.(*ssa.Alloc)
+				if !ok || !al.Heap {
+					continue
+				}
+				if _, isStruct := deref(al.Type()).Underlying().(*types.Struct); !isStruct {
+					continue
+				}
+				k++
+				n++
+				name := fnName(fn)
+				inside := loop[al.Block()]
+				written := false
+				if !inside && al.Referrers() != nil {
+					for _, ref := range *al.Referrers() {
+						if fa, isFA := ref.(*ssa.FieldAddr); isFA && fa.Referrers() != nil {
+							for _, r2 := range *fa.Referrers() {
+								if st, isSt := r2.(*ssa.Store); isSt && st.Addr == ssa.Value(fa) && loop[st.Block()] {
+									written = true
+								}
+							}
+						}
+						if st, isSt := ref.(*ssa.Store); isSt && st.Addr == ssa.Value(al) && loop[st.Block()] {
+							written = true
+						}
+					}
+				}
+				r.Check(fmt.Sprintf("%s hand-over#%d of %s", name, k, typeStr(deref(al.Type()))), inside || !written, posOf(p, ins), name, fmt.Sprintf("object allocated at %s (inside the loop: %v) and rewritten inside the loop: %v; queued entries would all alias the same object", posOf(p, al), inside, written))
+			}
+		})
+	}
+	r.Stat("handovers_in_loops", n)
+}
